@@ -1,6 +1,6 @@
 --------------------------- MODULE MC_Forwarding ---------------------------
 (* Exhaustive model of Forwarding: one frame of every (emitter, dst, ttl)  *)
-(* on six small internetworks (8-bit addresses; LANs are /4, the          *)
+(* on seven small internetworks (8-bit addresses; LANs are /4, the          *)
 (* router-router link a /6 with two usable addresses):                     *)
 (*   T1  a - r - [sw] - b                                                  *)
 (*   T2  a - r1 = r2 - b   static routes both ways, a longer-prefix route   *)
@@ -15,6 +15,8 @@
 (*       round the triangle r1 -> r2 -> r3 -> r1 for ever                  *)
 (*   T6  a - r1 = r2 - b   like T2, but the subnet the two routers share   *)
 (*       is a /4 with free addresses (78 is on it and owned by nobody)     *)
+(*   T7  the triangle of T5 with asymmetric paths (a->b round via r3,      *)
+(*       b->a over the direct link)                                        *)
 (* The design lowers the ttl by one at every receiving interface / switch  *)
 (* port and at every routing decision.  harness/c08.py reads the           *)
 (* topologies and the frames from this model's behaviours, builds the real *)
@@ -48,7 +50,14 @@ T5 == << H("a", 18, 4, 17), H("b", 34, 4, 33),
 T6 == << H("a", 18, 4, 17), H("b", 34, 4, 33),
          R("r1", <<If(17, 4), If(65, 4)>>, <<Rt(32, 4, 66, 0)>>, NoHop),
          R("r2", <<If(33, 4), If(66, 4)>>, <<Rt(16, 4, 65, 0)>>, NoHop) >>
-Topos == {T1, T2, T3, T4, T5, T6}
+\* T7: the triangle with ASYMMETRIC paths: r1's best route to b's LAN goes round via r3 (metric 0; the direct link
+\* to r2 has metric 1) while r2 answers over the direct link - so r1 hears b's address from r2 and must still
+\* forward to r3 (what a router has heard from a neighbour must not replace its route table)
+T7 == << H("a", 18, 4, 17), H("b", 34, 4, 33),
+         R("r1", <<If(17, 4), If(65, 6), If(73, 6)>>, <<Rt(32, 4, 74, 0), Rt(32, 4, 66, 1), Rt(128, 2, 66, 0)>>, NoHop),
+         R("r2", <<If(33, 4), If(66, 6), If(69, 6)>>, <<Rt(16, 4, 65, 0), Rt(128, 2, 70, 0)>>, NoHop),
+         R("r3", <<If(70, 6), If(74, 6)>>, <<Rt(128, 2, 73, 0), Rt(16, 4, 73, 0), Rt(32, 4, 69, 0)>>, NoHop) >>
+Topos == {T1, T2, T3, T4, T5, T6, T7}
 
 \* every owned address, an unowned address on each LAN and on the router-router subnet of T6 (78),
 \* two addresses that exist nowhere (133: inside the static 128/2 routes of T3/T5; 200: only default
